@@ -26,7 +26,7 @@ RULE = ("cases are (document spec, writer configuration) pairs from complete fam
 BOUNDS = {
   "quick": "F-struct: 5 region layouts x 7 div layouts x 4 br patterns x 4 timings; F-style: 11^3 nested span styles x 3 "
            "paragraph styles; F-text: 16 markup-significant tokens x space x repetition; F-time: begin/end over {0, 1/2 ms, 1 ms, "
-           "3/2 ms, 1, 1+1/3 ms, 2, unbounded} for one and two paragraphs; F-ruby; each x SRT {text_formatting} and VTT "
+           "3/2 ms, 1, 1+1/3 ms, 2, 2.0004, 2.0012, unbounded} for one and two paragraphs; F-ruby; each x SRT {text_formatting} and VTT "
            "{line_position, text_align, cue_id}^3",
   "thorough": "same (the families are already complete products)",
 }
@@ -116,6 +116,24 @@ def check(case, acc):
     if got != want and got != alt_want:
       acc.violation("C06.text", f"{cfg[0]}:{_text_disc(want, got, spec, cfg)}", dict(cc, t=t), observed=got, expected=want,
                     note=f"lines of the cues covering t={t} differ from the visible text")
+      break
+  # every interval between neighbouring critical times that shows text and whose ends round (unambiguously) to different
+  # milliseconds is covered by a cue carrying that text, however short it is
+  for a, b in zip(K, K[1:]):
+    ra, rb = wc.ms_round_candidates(a), wc.ms_round_candidates(b)
+    if len(ra) != 1 or len(rb) != 1:
+      continue
+    ra, rb = next(iter(ra)), next(iter(rb))
+    if not ra < rb:
+      continue
+    want = wc.flat_lines(wc.expected_at(spec, (a + b) / 2, idx))
+    if not want or has_ruby:
+      continue
+    cover = [c for c in cues if c.begin <= ra and c.end >= rb]
+    got = [g for g in (wc.norm_ws(ln) for c in cover for ln in c.lines) if g]
+    if got != want:
+      acc.violation("C06.cue-present", f"{cfg[0]}:{'sub-ms' if b - a < F(1, 1000) else 'interval'}", dict(cc, interval=[a, b]), observed=got, expected=want,
+                    note=f"no cue covers [{ra}, {rb}) with the text visible during [{a}, {b})")
       break
   # cue boundaries are rounded critical times (or +10 s)
   cand = set()
